@@ -1,0 +1,23 @@
+/* -*- Mode: C; c-basic-offset:4 ; indent-tabs-mode:nil ; -*- */
+/*
+ * See COPYRIGHT in top-level directory.
+ */
+
+/* Verification-only globals.  This file is not part of the regular build
+ * (it is not listed in Makefile.am); it compiles to nothing unless
+ * PMODELS_ARGOBOTS_VERIF is defined. */
+
+#ifdef PMODELS_ARGOBOTS_VERIF
+
+#include "abti.h"
+
+ABTI_verif_counter ABTI_verif_cov[ABTI_VERIF_NUM_POINTS];
+void (*volatile ABTI_verif_point_f)(int id) = NULL;
+
+#ifdef ABTD_VERIF_TSAN
+void *ABTD_verif_fiber_cache[ABTD_VERIF_FIBER_CACHE_SIZE];
+int ABTD_verif_fiber_cache_n = 0;
+pthread_mutex_t ABTD_verif_fiber_cache_lock = PTHREAD_MUTEX_INITIALIZER;
+#endif
+
+#endif /* PMODELS_ARGOBOTS_VERIF */
